@@ -446,6 +446,30 @@ m("C12","pull-from-empty","x/storage/keeper/rewards.go",
 m("C12","gauge-end-from-message","x/storage/keeper/msg_server_post_file.go",
   'end := ctx.BlockTime().AddDate(0, 0, int(days))','end := ctx.BlockTime()',"C12/R3","gauge-end=blocktime+duration")
 
+# ---- C07
+m("C07","removefile-keeps-usage","x/storage/keeper/files.go",
+  'payInfo.SpaceUsed -= file.FileSize * file.MaxProofs','payInfo.SpaceUsed -= 0',"C07/R1","footprint-returned","inverse of fix F7")
+m("C07","removefile-refunds-wrong-plan","x/storage/keeper/files.go",
+  'payInfo, found := k.GetStoragePaymentInfo(ctx, file.Owner)','payInfo, found := k.GetStoragePaymentInfo(ctx, file.Note)',"C07/R1","footprint-to-owner")
+m("C07","validatebasic-allows-zero-size","x/storage/types/message_post_file.go",
+  'if msg.FileSize <= 0 {','if msg.FileSize < 0 {',"C07/R3","postfile:unvalidated:FileSize","weakened fix F5")
+m("C07","validatebasic-allows-negative-proofs","x/storage/types/message_post_file.go",
+  'if msg.MaxProofs <= 0 {','if msg.MaxProofs == 0 {',"C07/R3","postfile:unvalidated:MaxProofs")
+m("C07","postfile-drop-space-check","x/storage/keeper/msg_server_post_file.go",
+  'if paymentInfo.SpaceUsed > paymentInfo.SpaceAvailable {','if paymentInfo.SpaceUsed > paymentInfo.SpaceAvailable && msg.MaxProofs > 3 {',"C07/R2","within-purchased-space")
+m("C07","postfile-expired-plan-accepted","x/storage/keeper/msg_server_post_file.go",
+  'if paymentInfo.End.Before(ctx.BlockTime()) {','if paymentInfo.End.Before(paymentInfo.Start) {',"C07/R2","plan-not-expired")
+m("C07","postfile-charge-only-size","x/storage/keeper/msg_server_post_file.go",
+  'paymentInfo.SpaceUsed += totalSize','paymentInfo.SpaceUsed += msg.FileSize',"C07/R5","charged-amount")
+m("C07","postfile-skip-charge-small","x/storage/keeper/msg_server_post_file.go",
+  '	k.SetStoragePaymentInfo(ctx, paymentInfo)\n\n	return res, nil','	if totalSize > 1024 {\n		k.SetStoragePaymentInfo(ctx, paymentInfo)\n	}\n\n	return res, nil',"C07/R5","charge-on-every-plan-path")
+m("C07","buystorage-resets-usage","x/storage/keeper/msg_server_buy_storage.go",
+  'SpaceUsed:      spaceUsed,','SpaceUsed:      spaceUsed - spaceUsed,',"C07/R4","usage-carried-over")
+m("C07","buystorage-allows-smaller-plan","x/storage/keeper/msg_server_buy_storage.go",
+  'if payInfo.SpaceUsed > bytes {','if payInfo.SpaceUsed > bytes && gbs > 1000000 {',"C07/R4","not-below-usage")
+m("C07","payonce-charges-plan","x/storage/keeper/msg_server_post_file.go",
+  '		return res, nil\n	}\n\n	// traditional storage plan payment info','		if pi, ok := k.GetStoragePaymentInfo(ctx, msg.Creator); ok {\n			pi.SpaceUsed += totalSize\n			k.SetStoragePaymentInfo(ctx, pi)\n		}\n		return res, nil\n	}\n\n	// traditional storage plan payment info',"C07/R2","not-on-pay-once-branch")
+
 for x in M:
     d = os.path.join(os.path.dirname(os.path.abspath(__file__)), x["property"])
     os.makedirs(d, exist_ok=True)
